@@ -113,7 +113,18 @@ pub fn oracle(ctx: &mut Ctx) {
     for i in 0..ctx.n {
         let &(ct, depth) = rng.choose(&LEGAL_PAIRS);
         let (w, h) = gen_dims(&mut rng, if ctx.tier_thorough { 24 } else { 12 });
-        let (g, info) = gen_grid(&mut rng, ct, depth, w, h);
+        let (mut g, info) = gen_grid(&mut rng, ct, depth, w, h);
+        if matches!(ct, 2 | 6) && rng.chance(1, 2) {
+            let c = channels(ct);
+            for p in g.samples.chunks_mut(c) {
+                p[1] = p[0];
+                p[2] = p[0];
+            }
+            if let Some(k) = g.trns.as_mut() {
+                k[1] = k[0];
+                k[2] = k[0];
+            }
+        }
         let img = g.pack(false);
         let mut opts = gen_opts(&mut rng, Profile::Any, ctx.tier_thorough);
         opts.idat_recoding = true;
@@ -152,7 +163,12 @@ pub fn oracle(ctx: &mut Ctx) {
         for (n, d) in &attached {
             raw.add_png_chunk(*n, d.clone());
         }
-        let icc: Option<Vec<u8>> = if rng.chance(1, 4) { Some(rng.bytes(150)) } else { None };
+        let icc: Option<Vec<u8>> = if rng.chance(1, 3) { Some(rng.bytes(150)) } else { None };
+        let srgb_attached = icc.is_none() && rng.chance(1, 4);
+        let srgb_payload = vec![rng.below(4) as u8];
+        if srgb_attached {
+            raw.add_png_chunk(*b"sRGB", srgb_payload.clone());
+        }
         if let Some(p) = &icc {
             raw.add_icc_profile(p);
         }
@@ -223,10 +239,31 @@ pub fn oracle(ctx: &mut Ctx) {
                     }
                 }
                 None => {
-                    if keep && !gray_changed {
-                        st.fail("raw-icc-lost", "attached ICC profile missing".into(), replay.clone());
+                    // the attached profile is random bytes (not a recognised sRGB profile): it may never
+                    // be replaced; with the profile kept the image must not move between gray and colour
+                    let replaced_by_existing_srgb = false;
+                    if keep && !replaced_by_existing_srgb {
+                        st.fail(
+                            "raw-icc-lost",
+                            format!("attached ICC profile missing from the output (gray<->colour conversion: {})", gray_changed),
+                            replay.clone(),
+                        );
                     }
                 }
+            }
+        }
+        if srgb_attached {
+            let gray_changed = (ct == 0 || ct == 4) != (dec.img.ct == 0 || dec.img.ct == 4);
+            let keep = oxipng::verif::strip_keep(&o2.strip, b"sRGB");
+            let present = dec.chunks.iter().filter(|c| &c.name == b"sRGB" && c.data == srgb_payload).count();
+            if keep && !gray_changed && present != 1 {
+                st.fail("raw-chunk-lost", format!("attached sRGB chunk appears {} times", present), replay.clone());
+            }
+            if !keep && present != 0 {
+                st.fail("raw-chunk-kept", "stripped sRGB chunk present".into(), replay.clone());
+            }
+            if gray_changed && opts.strip == HStrip::None {
+                st.fail("raw-srgb-gray-conversion", "sRGB-tagged raw image converted between gray and colour with stripping disabled".into(), replay.clone());
             }
         }
         if i < 2 {
